@@ -12,16 +12,17 @@ use serde_json::{json, Value};
 use std::io::Write;
 use vph::refdec;
 
-pub const RULE: &str = "for each writer front-end × declared/undeclared total × seek policy {off, every frame, seconds} × padding {default 4096, none, 20} × channels/depth {1×16, 2×8, 2×24} (+ STREAMINFO-referenced parameters: 10-bit, 17-bit at rate 0, 100001 Hz): 3.5 blocks of 16 PCM frames are written without finalize, plus histories where the caller supplies more or fewer PCM frames than it declared ((supplied, declared) ∈ {(56,40),(48,40),(56,33),(40,17),(33,32),(56,100)}) and stops at the first error; for EVERY byte prefix of the emitted stream (a superset of every write-call boundary) each of the byte, sample and channel readers must deliver exactly the PCM of the frames that lie completely inside the prefix (frame extents from the independent decoder run on a copy whose provisional total is cleared, i.e. without trusting STREAMINFO), in order, and then report end of data or an error; a prefix ending inside the metadata yields no samples";
+pub const RULE: &str = "for each writer front-end × declared/undeclared total × seek policy {off, every frame, seconds} × padding {default 4096, none, 20} × channels/depth {1×16, 2×8, 2×24} × sink {whole-buffer writes, at most 1 byte per write call, at most 7} (+ STREAMINFO-referenced parameters: 10-bit, 17-bit at rate 0, 100001 Hz): 3.5 blocks of 16 PCM frames are written without finalize, plus histories where the caller supplies more or fewer PCM frames than it declared ((supplied, declared) ∈ {(56,40),(48,40),(56,33),(40,17),(33,32),(56,100)}) and stops at the first error; for EVERY byte prefix of the emitted stream (a superset of every write-call boundary) each of 9 reader front-ends (byte LE/BE read + fill_buf, sample fill_buf / read(7) / read(4099) / iterator, channel whole and half-buffer consumption) must deliver exactly the PCM of the frames that lie completely inside the prefix (frame extents from the independent decoder run on a copy whose provisional total is cleared, i.e. without trusting STREAMINFO), in order, and then report end of data or an error; a prefix ending inside the metadata yields no samples";
 pub const ASSUMPTIONS: &[&str] = &["the pre-finalize write log is verified to be append-only at run time (otherwise prefixes would not be the crash images and the check reports a machinery note)", "torn writes inside one write call are covered because every byte prefix is explored; reordering of writes by the OS is out of scope (no syncs exist to order against)"];
 pub fn bounds(_quick: bool) -> Value {
     json!({"prefixes": "every byte prefix", "blocks": "3 complete frames emitted + half a block buffered"})
 }
 
-fn emit(w: WriterKind, opt: &Opt, sig: &Sig, pcm: &[i32], declared_frames: Option<usize>) -> Result<MemDevice, String> {
+fn emit(w: WriterKind, opt: &Opt, sig: &Sig, pcm: &[i32], declared_frames: Option<usize>, max_write: usize) -> Result<MemDevice, String> {
     let o = opt.to_options()?;
     guarded(|| -> Result<MemDevice, String> {
         let mut dev = MemDevice::new(vec![], 0);
+        dev.max_write = max_write;
         let e = |x: flac_codec::Error| format!("err:{x:?}");
         let frames = pcm.len() / sig.ch as usize;
         // split into two calls at an odd place so frames are emitted by different calls
@@ -65,9 +66,9 @@ pub struct Image {
     pub pcm: Vec<i32>,
 }
 
-fn image(w: WriterKind, opt: &Opt, sig: &Sig, supplied: usize, declared_frames: Option<usize>) -> Result<Image, String> {
+fn image(w: WriterKind, opt: &Opt, sig: &Sig, supplied: usize, declared_frames: Option<usize>, max_write: usize) -> Result<Image, String> {
     let pcm = ident_pcm(sig.ch, sig.bps, supplied);
-    let dev = emit(w, opt, sig, &pcm, declared_frames)?;
+    let dev = emit(w, opt, sig, &pcm, declared_frames, max_write)?;
     // append-only?
     let mut end = 0u64;
     for c in &dev.log {
@@ -90,9 +91,16 @@ fn image(w: WriterKind, opt: &Opt, sig: &Sig, supplied: usize, declared_frames: 
             *b = 0;
         }
     }
-    let (st, _rej) = refdec::decode_partial(&blind);
+    let (st, rej) = refdec::decode_partial(&blind);
     let want_frames = declared_frames.map(|d| supplied.min(d + 15) / 16).unwrap_or(supplied / 16);
-    if st.frames.len() < supplied.min(declared_frames.unwrap_or(supplied)) / 16 || st.frames.len() > want_frames.max(supplied / 16) {
+    let least = supplied.min(declared_frames.unwrap_or(supplied)) / 16;
+    let valid_end = st.frames.last().map(|f| f.offset + f.len).unwrap_or(st.first_frame_offset);
+    if st.frames.len() < least && blind.len() > valid_end && st.first_frame_offset > 0 {
+        // the writer accepted `least` whole blocks and returned, and bytes follow the last frame the independent decoder
+        // can verify: what was emitted there is not a valid frame (every write of a frame completes inside the write call)
+        return Err(format!("emitted-frame-invalid: the writer accepted {least} whole blocks but only {} valid frame(s) precede {} further emitted bytes ({})", st.frames.len(), blind.len() - valid_end, rej.map(|r| format!("{}: {}", r.code, r.msg)).unwrap_or_default()));
+    }
+    if st.frames.len() < least || st.frames.len() > want_frames.max(supplied / 16) {
         return Err(format!("machinery: unexpected number of complete frames in the emitted stream: {}", st.frames.len()));
     }
     let mut cum = 0;
@@ -121,14 +129,20 @@ fn check_prefix(img: &Image, len: usize, r: ReaderKind) -> Result<&'static str, 
     Ok(if ended == "eof" { "clean-end" } else { "error-end" })
 }
 
-fn configs() -> Vec<(WriterKind, Opt, Sig, usize, Option<usize>)> {
+/// sinks: whole-buffer writes, and legal short-writing sinks that accept at most 1 / 7 bytes per write call
+const SINKS: [usize; 3] = [0, 1, 7];
+const READERS14: [ReaderKind; 9] = [ReaderKind::ByteLE, ReaderKind::SampleFill, ReaderKind::Channel, ReaderKind::SampleRead, ReaderKind::SampleReadBig, ReaderKind::SampleIter, ReaderKind::ByteBE, ReaderKind::ByteFillLE, ReaderKind::ChannelPart];
+
+fn configs() -> Vec<(WriterKind, Opt, Sig, usize, Option<usize>, usize)> {
     let mut v = Vec::new();
     for w in [WriterKind::Sample, WriterKind::ByteLE, WriterKind::Channel] {
         for declared in [true, false] {
             for seek in [Seek::Off, Seek::Frames(1), Seek::Default] {
                 for pad in [Pad::Default, Pad::None, Pad::Size(20)] {
                     for sig in [Sig { rate: 44100, bps: 16, ch: 1 }, Sig { rate: 8000, bps: 8, ch: 2 }, Sig { rate: 96000, bps: 24, ch: 2 }] {
-                        v.push((w, Opt { declared, seek, pad, ..Opt::base16() }, sig, 56, declared.then_some(56)));
+                        for mw in SINKS {
+                            v.push((w, Opt { declared, seek, pad, ..Opt::base16() }, sig.clone(), 56, declared.then_some(56), mw));
+                        }
                     }
                 }
             }
@@ -136,14 +150,14 @@ fn configs() -> Vec<(WriterKind, Opt, Sig, usize, Option<usize>)> {
         // depths / rates without a header code: every frame says "see STREAMINFO"
         for declared in [true, false] {
             for sig in [Sig { rate: 44100, bps: 10, ch: 1 }, Sig { rate: 100001, bps: 16, ch: 2 }, Sig { rate: 0, bps: 17, ch: 1 }] {
-                v.push((w, Opt { declared, seek: Seek::Off, pad: Pad::Size(20), ..Opt::base16() }, sig, 56, declared.then_some(56)));
+                v.push((w, Opt { declared, seek: Seek::Off, pad: Pad::Size(20), ..Opt::base16() }, sig, 56, declared.then_some(56), 0));
             }
         }
         // the caller supplies more (or fewer) PCM frames than it declared and the encode stops there
         for (supplied, declared) in [(56usize, 40usize), (48, 40), (56, 33), (40, 17), (33, 32), (56, 100)] {
             for seek in [Seek::Off, Seek::Frames(1)] {
                 for sig in [Sig { rate: 44100, bps: 16, ch: 1 }, Sig { rate: 8000, bps: 8, ch: 2 }] {
-                    v.push((w, Opt { declared: true, seek, pad: Pad::Size(20), ..Opt::base16() }, sig, supplied, Some(declared)));
+                    v.push((w, Opt { declared: true, seek, pad: Pad::Size(20), ..Opt::base16() }, sig, supplied, Some(declared), 0));
                 }
             }
         }
@@ -152,15 +166,15 @@ fn configs() -> Vec<(WriterKind, Opt, Sig, usize, Option<usize>)> {
 }
 
 pub fn run(ctx: &Ctx, acc: &mut Acc) {
-    for (w, opt, sig, supplied, declared_frames) in configs() {
-        let img = match image(w, &opt, &sig, supplied, declared_frames) {
+    for (w, opt, sig, supplied, declared_frames, max_write) in configs() {
+        let img = match image(w, &opt, &sig, supplied, declared_frames, max_write) {
             Ok(i) => i,
             Err(e) => {
                 if ctx.shard == 0 {
                     if e.starts_with("machinery") {
                         acc.notes.push(e);
                     } else {
-                        acc.violation(format!("C14|emit|{}", crate::codec::err_class(&e)), format!("writing without finalize failed: {e}"), json!({"kind":"crash-prefix","writer":format!("{w:?}"),"opt":opt.to_json(),"rate":sig.rate,"bps":sig.bps,"ch":sig.ch,"prefix":0,"reader":"SampleFill","supplied":supplied,"declared_frames":declared_frames}));
+                        acc.violation(format!("C14|emit|{}", crate::codec::err_class(&e)), format!("writing without finalize failed: {e}"), json!({"kind":"crash-prefix","writer":format!("{w:?}"),"opt":opt.to_json(),"rate":sig.rate,"bps":sig.bps,"ch":sig.ch,"prefix":0,"reader":"SampleFill","supplied":supplied,"declared_frames":declared_frames,"max_write":max_write}));
                     }
                 }
                 continue;
@@ -174,7 +188,7 @@ pub fn run(ctx: &Ctx, acc: &mut Acc) {
                 continue;
             }
             acc.states += 1;
-            for r in [ReaderKind::ByteLE, ReaderKind::SampleFill, ReaderKind::Channel] {
+            for r in READERS14 {
                 acc.executions += 1;
                 acc.transitions += 1;
                 let region = if len < img.first_frame { "in-metadata" } else if img.frame_ends.iter().any(|(e, _)| *e == len) || len == img.first_frame { "at-frame-boundary" } else { "mid-frame" };
@@ -182,7 +196,7 @@ pub fn run(ctx: &Ctx, acc: &mut Acc) {
                     Ok(how) => acc.outcome(format!("{r:?}:decl{}:supplied{}:{region}:{how}", declared_frames.map(|d| d.to_string()).unwrap_or("none".into()), supplied)),
                     Err((clause, detail)) => {
                         acc.outcome(format!("{r:?}:{region}:BAD"));
-                        acc.violation(format!("C14|{r:?}|{region}|{clause}"), format!("{w:?} {:?} {}ch/{}bit: {detail}", opt, sig.ch, sig.bps), json!({"kind":"crash-prefix","writer":format!("{w:?}"),"opt":opt.to_json(),"rate":sig.rate,"bps":sig.bps,"ch":sig.ch,"prefix":len,"reader":format!("{r:?}"),"supplied":supplied,"declared_frames":declared_frames}));
+                        acc.violation(format!("C14|{r:?}|{region}|{clause}"), format!("{w:?} {:?} {}ch/{}bit: {detail}", opt, sig.ch, sig.bps), json!({"kind":"crash-prefix","writer":format!("{w:?}"),"opt":opt.to_json(),"rate":sig.rate,"bps":sig.bps,"ch":sig.ch,"prefix":len,"reader":format!("{r:?}"),"supplied":supplied,"declared_frames":declared_frames,"max_write":max_write}));
                     }
                 }
             }
@@ -194,7 +208,7 @@ pub fn replay(v: &Value) -> Option<(bool, String)> {
     if v["kind"] != "crash-prefix" {
         return None;
     }
-    let img = match image(crate::codec::writer_from(v["writer"].as_str()?), &Opt::from_json(&v["opt"]), &crate::codec::sig_from(v), v["supplied"].as_u64().unwrap_or(56) as usize, v["declared_frames"].as_u64().map(|d| d as usize)) {
+    let img = match image(crate::codec::writer_from(v["writer"].as_str()?), &Opt::from_json(&v["opt"]), &crate::codec::sig_from(v), v["supplied"].as_u64().unwrap_or(56) as usize, v["declared_frames"].as_u64().map(|d| d as usize), v["max_write"].as_u64().unwrap_or(0) as usize) {
         Ok(i) => i,
         Err(e) => return Some((true, e)),
     };
